@@ -22,6 +22,14 @@ var falseConds = []string{"windows", "!linux", "darwin", "!unix", "exec:nosuchpr
 
 func pick(r *common.RNG, xs []string) string { return xs[r.Intn(len(xs))] }
 
+// pickIdx: mostly the uniform draw (index 0), sometimes the guard and -count templates
+func pickIdx(r *common.RNG) int {
+	if r.Chance(4, 5) {
+		return 0
+	}
+	return 1 + r.Intn(4)
+}
+
 func sortedKeys[T any](m map[string]T) []string {
 	var ks []string
 	for k := range m {
@@ -100,15 +108,48 @@ func (x *genCtx) marker() string {
 	return fmt.Sprintf("cp stdout $WORK/mark_%d", x.n)
 }
 
+// guards renders 1-3 condition prefixes.  allTrue: every one holds (the command must run).
+// Otherwise one of them is false, the ones in front of it hold and the ones behind it are
+// arbitrary (they are never evaluated: true, false, erroring or unknown conditions).
+func (x *genCtx) guards(allTrue bool) string {
+	r := x.r
+	n := 1 + r.Intn(3)
+	var gs []string
+	if allTrue {
+		for i := 0; i < n; i++ {
+			gs = append(gs, "["+pick(r, x.cond.trueC)+"]")
+		}
+		return strings.Join(gs, " ")
+	}
+	k := r.Intn(n)
+	for i := 0; i < n; i++ {
+		switch {
+		case i < k:
+			gs = append(gs, "["+pick(r, x.cond.trueC)+"]")
+		case i == k:
+			gs = append(gs, "["+pick(r, x.cond.falseC)+"]")
+		default:
+			any := append(append([]string{}, x.cond.trueC...), x.cond.falseC...)
+			any = append(any, x.cond.errC...)
+			if !x.c.HasCond {
+				any = append(any, "nosuchcond", "!nosuchcond")
+			}
+			gs = append(gs, "["+pick(r, any)+"]")
+		}
+	}
+	return strings.Join(gs, " ")
+}
+
 // okLine proposes a line that is likely to succeed in state g.
 func (x *genCtx) okLine() string {
 	r, g := x.r, x.g
 	h := helperName
-	switch r.Intn(34) {
+	switch []int{r.Intn(34), 27, 28, 4, 35}[pickIdx(r)] {
 	case 0, 1:
 		return fmt.Sprintf("exec %s echo %s %s", h, pick(r, wordsPool), pick(r, wordsPool))
 	case 2:
-		return fmt.Sprintf("exec %s lines %s %s %s", h, pick(r, wordsPool), pick(r, wordsPool), pick(r, wordsPool))
+		w := pick(r, wordsPool)
+		return fmt.Sprintf("exec %s lines %s %s %s %s", h, w, pick(r, wordsPool), w, pick(r, wordsPool))
 	case 3:
 		if r.Chance(1, 2) {
 			return "stdout " + q(x.outWord(g.out))
@@ -116,7 +157,28 @@ func (x *genCtx) okLine() string {
 		return "! stdout nomatch-zzz"
 	case 4:
 		w := x.outWord(g.out)
+		if r.Chance(1, 3) {
+			// whole-line matches under (?m)
+			n := 0
+			for _, l := range strings.Split(g.out, "\n") {
+				if l == w {
+					n++
+				}
+			}
+			if n > 0 {
+				return fmt.Sprintf("stdout -count=%d ^%s$", n, w)
+			}
+		}
 		return fmt.Sprintf("stdout -count=%d %s", strings.Count(g.out, w), q(w))
+	case 35:
+		// matches that would overlap are counted once: "aa" in "aaaa aaa" is 3, not 5
+		switch r.Intn(3) {
+		case 0:
+			return fmt.Sprintf("exec %s echo aaaa aaa\nstdout -count=3 aa", h)
+		case 1:
+			return fmt.Sprintf("exec %s lines ab abab ab\nstdout -count=4 ab\nstdout -count=2 ^ab$", h)
+		}
+		return fmt.Sprintf("exec %s write rep%d.txt xx xxx xx\ngrep -count=3 xx rep%d.txt", h, x.n, x.n)
 	case 5:
 		if r.Chance(1, 2) {
 			return "stderr " + q(x.outWord(g.err))
@@ -207,13 +269,17 @@ func (x *genCtx) okLine() string {
 			return "chmod 444 " + f + "\nexists -readonly " + f
 		}
 	case 27:
-		if len(x.cond.trueC) > 0 {
-			return "[" + pick(r, x.cond.trueC) + "] " + x.okLineFlat()
+		// every guard holds: the command must run (a marker makes that visible)
+		if r.Chance(1, 2) {
+			return x.guards(true) + " " + x.marker()
 		}
+		return x.guards(true) + " " + x.okLineFlat()
 	case 28:
-		if len(x.cond.falseC) > 0 {
-			return "[" + pick(r, x.cond.falseC) + "] " + x.failLine()
+		// a false guard: neither a failing command nor a marker may have any effect
+		if r.Chance(1, 2) {
+			return x.guards(false) + " " + x.marker()
 		}
+		return x.guards(false) + " " + x.failLine()
 	case 29:
 		return pick(r, []string{"# phase " + fmt.Sprint(x.n), "", "   "})
 	case 30:
@@ -246,7 +312,7 @@ func (x *genCtx) failLine() string {
 	r, g := x.r, x.g
 	h := helperName
 	f, hasF := x.someFile()
-	switch r.Intn(30) {
+	switch []int{r.Intn(30), 9, 15, 30}[pickIdx(r)%4] {
 	case 0:
 		return "exists nofile.txt"
 	case 1:
@@ -269,6 +335,9 @@ func (x *genCtx) failLine() string {
 		return pick(r, []string{"frobnicate x", "nosuchcmd", "exe tshelper", "cdd sub"})
 	case 9:
 		w := x.outWord(g.out)
+		if n := strings.Count(g.out, w); n >= 2 && r.Chance(1, 2) {
+			return fmt.Sprintf("stdout -count=%d %s", 1+r.Intn(n-1), q(w)) // too few
+		}
 		return fmt.Sprintf("stdout -count=%d %s", strings.Count(g.out, w)+1+r.Intn(3), q(w))
 	case 10:
 		return "stdout nomatch-zzz"
@@ -290,6 +359,15 @@ func (x *genCtx) failLine() string {
 			return pick(r, []string{"failcmd", "negok", "! failcmd"})
 		}
 	case 15:
+		if hasF {
+			p, _ := g.abs(strings.Replace(f, "$WORK", absWork, 1))
+			w := x.outWord(g.files[p])
+			n := strings.Count(g.files[p], w)
+			if n >= 2 {
+				return fmt.Sprintf("grep -count=%d %s %s", n-1, q(w), f)
+			}
+			return fmt.Sprintf("grep -count=%d %s %s", n+1, q(w), f)
+		}
 		return "grep word nofile.txt"
 	case 16:
 		return "exec nosuchprog-verif"
@@ -300,7 +378,10 @@ func (x *genCtx) failLine() string {
 	case 19:
 		return pick(r, []string{"wait nosuchbg", "kill nosuchbg", "kill -HUP", "kill -"})
 	case 20:
-		return pick(r, []string{"stdout -count=0 a", "stdout -count=x a", "! stdout -count=1 a", "stdout -count= a", "grep -count=-1 a b"})
+		if hasF && r.Chance(1, 2) {
+			return "! grep -count=1 nomatch-zzz " + f
+		}
+		return pick(r, []string{"stdout -count=0 a", "stdout -count=x a", "! stdout -count=1 a", "stdout -count= a", "grep -count=-1 a b", "! stderr -count=2 a"})
 	case 21:
 		if hasF {
 			return "cmp " + f + " " + f
@@ -329,6 +410,23 @@ func (x *genCtx) failLine() string {
 		return fmt.Sprintf("exec %s write nodir/zz/f.txt x", h)
 	case 29:
 		return fmt.Sprintf("exec %s badsub", h)
+	case 30:
+		// too many matches must fail as well as too few
+		w := x.outWord(g.out)
+		n := 0
+		for _, l := range strings.Split(g.out, "\n") {
+			if l == w {
+				n++
+			}
+		}
+		if n >= 2 {
+			return fmt.Sprintf("stdout -count=%d ^%s$", n-1, w)
+		}
+		ew := x.outWord(g.err)
+		if m := strings.Count(g.err, ew); m >= 2 {
+			return fmt.Sprintf("stderr -count=%d %s", m-1, q(ew))
+		}
+		return fmt.Sprintf("stdout -count=%d ^%s$", n+1, w)
 	}
 	return "exists nofile.txt"
 }
@@ -523,8 +621,8 @@ func genConstructive(r *common.RNG, id string, cli bool) (*Case, *Planted) {
 				cand = x.failGroup()
 			case wantFail:
 				cand = x.failLine()
-				if r.Chance(1, 6) && len(cond.trueC) > 0 {
-					cand = "[" + pick(r, cond.trueC) + "] " + cand
+				if r.Chance(1, 4) {
+					cand = x.guards(true) + " " + cand
 				}
 			case endAt != 0 && n >= endAt:
 				cand = endKind
